@@ -160,20 +160,47 @@ def run(tier, work):
     scen_c = [("c%d" % k, PRE + ["line u1 do me svsave:/sv/c%d" % k, "cycle", "fslog 1", "fscrash %d" % k, "line u1 do me svset:3;svsave:/sv/c%d" % k, "cycle"])
               for k in range(1, ncalls + 2)]
     exs_c = vlib.run_vdrv(exe, conf, scen_c, work, tag="crash")
+    # the same boundaries as failure points: the k-th file-system call reports an error instead of a crash
+    scen_f = [("f%d" % k, PRE + ["line u1 do me svsave:/sv/f%d" % k, "cycle", "fslog 1", "fsfail %d" % k, "line u1 do me svset:3;svsave:/sv/f%d" % k, "cycle"])
+              for k in range(1, ncalls + 1)]
+    exs_f = vlib.run_vdrv(exe, conf, scen_f, work, tag="fail")
     aprojs = []
+    nfailpoints = 0
+    failsum = []
+    for ex in exs_f:
+        k = ex["id"]
+        out = [{"e": "Reset", "id": k}]
+        anyfail = False
+        for ev in ex["events"]:
+            if ev.get("e") == "Fs" and ("/sv/" in ev["path"] or "sv/" in ev["path"]) and ev["fn"] in ("fopen", "fprintf", "fclose", "rename", "unlink"):
+                out.append({"e": "Fs", "fn": ev["fn"], "tmp": ev["path"].endswith(".tmp"), "final": ev.get("path2", "").endswith(".o"), "failed": bool(ev.get("failed"))})
+                anyfail = anyfail or bool(ev.get("failed"))
+        saved = [ev["ok"] for ev in ex["events"] if ev.get("e") == "Saved"]
+        fn = os.path.join(root, "sv", "%s.o" % k)
+        content = open(fn, "rb").read() if os.path.exists(fn) else None
+        final = "old" if content == old_content else "new" if content == new_content else "other"
+        if anyfail:
+            nfailpoints += 1
+            out.append({"e": "AfterFail", "final": final, "ret": saved[-1] if saved else -1})
+            failsum.append("%s->ret %s,%s" % ("/".join(e["fn"] for e in out if e.get("failed")), out[-1]["ret"], final))
+        else:
+            out.append({"e": "AfterCrash", "final": final})
+        aprojs.append(out)
     for ex in exs_c + ref:
         k = ex["id"]
         out = [{"e": "Reset", "id": k}]
         for ev in ex["events"]:
             if ev.get("e") == "Fs" and ("/sv/" in ev["path"] or "sv/" in ev["path"]):
-                out.append({"e": "Fs", "fn": ev["fn"], "tmp": ev["path"].endswith(".tmp"), "final": ev.get("path2", "").endswith(".o")})
+                out.append({"e": "Fs", "fn": ev["fn"], "tmp": ev["path"].endswith(".tmp"), "final": ev.get("path2", "").endswith(".o"), "failed": False})
         fn = os.path.join(root, "sv", ("%s.o" % k) if k != "ref" else "ref.o")
         content = open(fn, "rb").read() if os.path.exists(fn) else None
         final = "old" if content == old_content else "new" if content == new_content else "other"
         out.append({"e": "AfterCrash", "final": final})
         aprojs.append(out)
-    print("GEN %d values (+%d simulated drawn), %d damaged texts, %d crash points; RUN %d + %d + %d scenarios" %
-          (len(allt), len(sims), len(dm), ncalls + 1, len(exs), len(exs_d), len(exs_c)))
+    print("GEN %d values (+%d simulated drawn), %d damaged texts, %d crash points, %d failure points [%s]; RUN %d + %d + %d + %d scenarios" %
+          (len(allt), len(sims), len(dm), ncalls + 1, nfailpoints, "; ".join(failsum), len(exs), len(exs_d), len(exs_c), len(exs_f)))
+    if nfailpoints < 3:
+        raise vlib.Broken("fewer than 3 file-system calls of save_object could be made to fail (%d)" % nfailpoints)
     accepted, nevents, rejects = vlib.validate_executions(SPEC, "SaveRestoreTrace", "SaveRestoreTrace.cfg", projs, work, max_rejects=25, tag="p3a")
     for badi, upto in rejects:
         bad = projs[badi][upto] if upto < len(projs[badi]) else {"e": "?"}
@@ -200,8 +227,8 @@ def run(tier, work):
         states=mc["states"] + gs["states"], transitions=mc["transitions"] + gs["transitions"], traces_validated_against_impl=accepted + acc2,
         samples=samples, evaluations=len(allt) + len(dm) + ncalls + 1, distinct_nontrivial=len(allt) + len(dm) + ncalls + 1,
         rule="value trees printed by TLC from SaveGen (all leaves, all 1-element arrays / 1-entry mappings, simulated depth-2 trees), every truncation and "
-             "single-byte replacement of recorded save texts (sampled), every file-system call boundary of a save_object; all distinct by construction",
-        exhaustive=False, events_validated=nevents + nev2, driver_failures=ncrash, values=len(allt), damaged=len(dm), crash_points=ncalls + 1),
+             "single-byte replacement of recorded save texts (sampled), every file-system call boundary of a save_object (as a crash point and as a call that fails with ENOSPC); all distinct by construction",
+        exhaustive=False, events_validated=nevents + nev2, driver_failures=ncrash, values=len(allt), damaged=len(dm), crash_points=ncalls + 1, failure_points=nfailpoints, failure_outcomes=failsum),
         time.time() - t0, len(verdict.new), ["LPC-side canonical encoding enc() of values (mudlib/base/obj/sv.c) is trusted", "fopen/fprintf/fclose/rename/unlink interposed at link time"])
     return rc
 
